@@ -241,13 +241,23 @@ impl TryFromTerm for f64 {
 
     fn try_from_term<T: Term>(term: T) -> Result<Self, Self::Error> {
         if let Some(lex) = term.lexical_form() {
-            if Term::eq(&term.datatype().unwrap(), xsd::double)
-                || Term::eq(&term.datatype().unwrap(), xsd::float)
-                || Term::eq(&term.datatype().unwrap(), xsd::decimal)
+            let datatype = term.datatype().unwrap();
+            let is_decimal = Term::eq(&datatype, xsd::decimal);
+            if !(is_decimal
+                || Term::eq(&datatype, xsd::double)
+                || Term::eq(&datatype, xsd::float))
             {
+                "wrong datatype".parse()
+            } else if !is_decimal && matches!(&lex[..], "INF" | "+INF" | "-INF" | "NaN") {
+                lex.parse()
+            } else if lex.bytes().all(|b| {
+                matches!(b, b'0'..=b'9' | b'+' | b'-' | b'.') || (!is_decimal && matches!(b, b'e' | b'E'))
+            }) {
+                // NB: on this alphabet, Rust and XSD agree on what a number is
+                // (while Rust also accepts "inf", "infinity" or "nan" in any case)
                 lex.parse()
             } else {
-                "wrong datatype".parse()
+                "invalid lexical form".parse()
             }
         } else {
             "not a literal".parse()
@@ -255,96 +265,85 @@ impl TryFromTerm for f64 {
     }
 }
 
-/// [`i32`] implements [`TryFromTerm`]
-/// so that compatible datatypes can easily be converted to native Rust values.
 impl TryFromTerm for i32 {
     type Error = std::num::ParseIntError;
 
     fn try_from_term<T: Term>(term: T) -> Result<Self, Self::Error> {
-        if let Some(lex) = term.lexical_form() {
-            if Term::eq(&term.datatype().unwrap(), xsd::integer)
-                || Term::eq(&term.datatype().unwrap(), xsd::long)
-                || Term::eq(&term.datatype().unwrap(), xsd::int)
-                || Term::eq(&term.datatype().unwrap(), xsd::short)
-                || Term::eq(&term.datatype().unwrap(), xsd::unsignedLong)
-                || Term::eq(&term.datatype().unwrap(), xsd::unsignedInt)
-                || Term::eq(&term.datatype().unwrap(), xsd::unsignedShort)
-                || Term::eq(&term.datatype().unwrap(), xsd::unsignedByte)
-                || Term::eq(&term.datatype().unwrap(), xsd::nonNegativeInteger)
-                || Term::eq(&term.datatype().unwrap(), xsd::nonPositiveInteger)
-                || Term::eq(&term.datatype().unwrap(), xsd::negativeInteger)
-                || Term::eq(&term.datatype().unwrap(), xsd::positiveInteger)
-            {
-                lex.parse()
-            } else {
-                "wrong datatype".parse()
-            }
-        } else {
-            "not a literal".parse()
-        }
+        integer_try_from_term(term)
     }
 }
 
-/// [`isize`] implements [`TryFromTerm`]
-/// so that compatible datatypes can easily be converted to native Rust values.
 impl TryFromTerm for isize {
     type Error = std::num::ParseIntError;
 
     fn try_from_term<T: Term>(term: T) -> Result<Self, Self::Error> {
-        if let Some(lex) = term.lexical_form() {
-            if Term::eq(&term.datatype().unwrap(), xsd::integer)
-                || Term::eq(&term.datatype().unwrap(), xsd::long)
-                || Term::eq(&term.datatype().unwrap(), xsd::int)
-                || Term::eq(&term.datatype().unwrap(), xsd::short)
-                || Term::eq(&term.datatype().unwrap(), xsd::unsignedLong)
-                || Term::eq(&term.datatype().unwrap(), xsd::unsignedInt)
-                || Term::eq(&term.datatype().unwrap(), xsd::unsignedShort)
-                || Term::eq(&term.datatype().unwrap(), xsd::unsignedByte)
-                || Term::eq(&term.datatype().unwrap(), xsd::nonNegativeInteger)
-                || Term::eq(&term.datatype().unwrap(), xsd::nonPositiveInteger)
-                || Term::eq(&term.datatype().unwrap(), xsd::negativeInteger)
-                || Term::eq(&term.datatype().unwrap(), xsd::positiveInteger)
-            {
-                lex.parse()
-            } else {
-                "wrong datatype".parse()
-            }
-        } else {
-            "not a literal".parse()
-        }
+        integer_try_from_term(term)
     }
 }
 
-/// [`usize`] implements [`TryFromTerm`]
-/// so that compatible datatypes can easily be converted to native Rust values.
 impl TryFromTerm for usize {
     type Error = std::num::ParseIntError;
 
     fn try_from_term<T: Term>(term: T) -> Result<Self, Self::Error> {
-        if let Some(lex) = term.lexical_form() {
-            if Term::eq(&term.datatype().unwrap(), xsd::integer)
-                || Term::eq(&term.datatype().unwrap(), xsd::long)
-                || Term::eq(&term.datatype().unwrap(), xsd::int)
-                || Term::eq(&term.datatype().unwrap(), xsd::short)
-                || Term::eq(&term.datatype().unwrap(), xsd::unsignedLong)
-                || Term::eq(&term.datatype().unwrap(), xsd::unsignedInt)
-                || Term::eq(&term.datatype().unwrap(), xsd::unsignedShort)
-                || Term::eq(&term.datatype().unwrap(), xsd::unsignedByte)
-                || Term::eq(&term.datatype().unwrap(), xsd::nonNegativeInteger)
-                || Term::eq(&term.datatype().unwrap(), xsd::positiveInteger)
-            {
-                lex.parse()
-            } else {
-                "wrong datatype".parse()
-            }
-        } else {
-            "not a literal".parse()
-        }
+        integer_try_from_term(term)
     }
 }
 
-/// [`bool`] implements [`TryFromTerm`]
-/// so that compatible datatypes can easily be converted to native Rust values.
+/// Common implementation of [`TryFromTerm`] for integer types:
+/// the term must be a literal of an integer datatype,
+/// whose lexical form denotes a value of that datatype that fits in `U`.
+fn integer_try_from_term<U, T>(term: T) -> Result<U, std::num::ParseIntError>
+where
+    U: std::str::FromStr<Err = std::num::ParseIntError> + Copy + TryInto<i128>,
+    T: Term,
+{
+    let Some(lex) = term.lexical_form() else {
+        return "not a literal".parse();
+    };
+    let Some(value_space) = integer_value_space(term.datatype().unwrap()) else {
+        return "wrong datatype".parse();
+    };
+    let value: U = lex.parse()?;
+    match value.try_into() {
+        Ok(v) if value_space.contains(&v) => Ok(value),
+        _ => "not in the value space of the datatype".parse(),
+    }
+}
+
+/// The value space of the XSD integer datatypes (restricted to what fits in a `i128`)
+fn integer_value_space<T: Term>(datatype: T) -> Option<std::ops::RangeInclusive<i128>> {
+    let is = |candidate| Term::eq(&datatype, candidate);
+    if is(xsd::integer) {
+        Some(i128::MIN..=i128::MAX)
+    } else if is(xsd::long) {
+        Some(i64::MIN.into()..=i64::MAX.into())
+    } else if is(xsd::int) {
+        Some(i32::MIN.into()..=i32::MAX.into())
+    } else if is(xsd::short) {
+        Some(i16::MIN.into()..=i16::MAX.into())
+    } else if is(xsd::byte) {
+        Some(i8::MIN.into()..=i8::MAX.into())
+    } else if is(xsd::unsignedLong) {
+        Some(0..=u64::MAX.into())
+    } else if is(xsd::unsignedInt) {
+        Some(0..=u32::MAX.into())
+    } else if is(xsd::unsignedShort) {
+        Some(0..=u16::MAX.into())
+    } else if is(xsd::unsignedByte) {
+        Some(0..=u8::MAX.into())
+    } else if is(xsd::nonNegativeInteger) {
+        Some(0..=i128::MAX)
+    } else if is(xsd::positiveInteger) {
+        Some(1..=i128::MAX)
+    } else if is(xsd::nonPositiveInteger) {
+        Some(i128::MIN..=0)
+    } else if is(xsd::negativeInteger) {
+        Some(i128::MIN..=-1)
+    } else {
+        None
+    }
+}
+
 impl TryFromTerm for bool {
     type Error = std::str::ParseBoolError;
 
